@@ -29,7 +29,8 @@ claimed = {
         "exception frames are recognised exactly and carry unit/function/code (R2.3); dispatchers agree with parsers (R2.4)."
         " Also: installed recognisers (R2.3), recogniser sees everything received (R2.5), acceptance of every well-formed reply (R2.6)."
         " Also R2.7 (dispatchers never return nil,nil) and the framing-mix rule on constructors."
-        " R2.6 also on the dispatchers (no well-formed size refused before the per-function parser); R2.8 shared-state rule for parsers, recognisers and re-encoding."),
+        " R2.6 also on the dispatchers (no well-formed size refused before the per-function parser); R2.8 shared-state rule for parsers, recognisers and re-encoding."
+        " R2.4 whole-input clause; R2.9 the client parses exactly what it received."),
   note=ENGINE_NOTE + " Premises are printed in evidence (protocol id 0, MBAP length = len-6, function byte = case constant, legal FC5 value, fixed-size replies have their length, FC17 within one ADU).",
   ref="DESIGN.md §3 C02"),
  "C03": dict(
@@ -40,7 +41,8 @@ claimed = {
         "arithmetic equals the Modbus polynomial for every byte string is NOT decided (needs execution or a proof of the loop)."
         " Also: CRC range for arbitrary struct contents (R3.1), RTU clients install CRC-verifying functions (R3.3)."
         " R3.4: checksum constants 0xFFFF / 0xA001 or an equal 256-entry table (constants only)."
-        " R3.5: shared-state rule for CRC16 and its callers."),
+        " R3.5: shared-state rule for CRC16 and its callers."
+        " R3.0 on the whole argument (no clamped view)."),
   note=ENGINE_NOTE + " CRC16 is an uninterpreted function in R3.1/R3.2.",
   ref="DESIGN.md §3 C03"),
  "C04": dict(
@@ -51,7 +53,8 @@ claimed = {
         "tied to the LowWordFirst flag (R4.2), and each typed accessor uses the getter width and endianness its type and flags "
         "demand (R4.3). Float value identity is not decided."
         " R4.5: no access path writes the payload or keeps decoder state."
-        " R4.6: AsRegisters hands the whole payload and the request start address to NewRegisters."),
+        " R4.6: AsRegisters hands the whole payload and the request start address to NewRegisters."
+        " R4.5 also rooted at the builder's extraction loop."),
   note=ENGINE_NOTE + " Registers values are assumed to come from NewRegisters (fields unexported; checked that no other function writes them).",
   ref="DESIGN.md §3 C04"),
  "C05": dict(
@@ -63,7 +66,8 @@ claimed = {
         " Also R5.6 effect-free extraction, R5.7 constructors accept the full range 1..limit, R5.8 follow-up batches keep address and unit id, byte-order-aware accessors for multi-register types."
         " Also R5.9: Validate accepts every well-formed field."
         " Also R5.10 (definitions stored as given) and R5.11 (= C04 window rules)."
-        " R5.12: building requests is read-only on the builder (field list not written, no state kept)."),
+        " R5.12: building requests is read-only on the builder (field list not written, no state kept)."
+        " R5.4 fresh components per iteration; R5.12 clause 3 (definitions not edited while building)."),
   note=ENGINE_NOTE,
   ref="DESIGN.md §3 C05"),
  "C06": dict(
@@ -85,7 +89,8 @@ claimed = {
         "the exception recogniser to everything received in every iteration (R7.3). Scheduling and timing are not decided."
         " Also R7.4 installed recognisers claim only exception frames, R7.5 positive read timeout from the right configuration field, R7.6 parsers accept and decode every well-formed reply, R7.7 oversize limit = ADU size."
         " R7.5 includes guard purity."
-        " R7.6 includes dispatcher acceptance of every legal size."),
+        " R7.6 includes dispatcher acceptance of every legal size."
+        " R7.9 never neither reply nor error."),
   note=ENGINE_NOTE + " io.Reader contract and errors.Is as an uninterpreted predicate are assumed.",
   ref="DESIGN.md §3 C07"),
  "C08": dict(
@@ -93,7 +98,8 @@ claimed = {
   text=("Decides structural termination and classification clauses on Do/do of both clients (R8.1-R8.5). Bounded wall-clock time "
         "is NOT decided; finite serial reads are assumed."
         " Also R8.6 usable timeouts/functions and configuration plumbing, R8.7 connection stored only after a successful dial, R8.8 installed reply functions cannot panic, R8.9 no exit leaves the client mutex held."
-        " Also R8.10 Unwrap returns the cause; guard purity; helper obligations with the Flusher field invariant."),
+        " Also R8.10 Unwrap returns the cause; guard purity; helper obligations with the Flusher field invariant."
+        " R8.11 dispatchers hand their whole input to the parsers."),
   note=ENGINE_NOTE,
   ref="DESIGN.md §3 C08"),
  "C09": dict(
@@ -102,7 +108,8 @@ claimed = {
         "CRC) with no feasible rejecting or panicking path, decode to equal fields (hence re-encode identically) (R9.3); parser "
         "limits equal the specification's (R9.1); dispatchers agree (R9.4). FC1/FC2 parser limit 125 is a known finding."
         " R9.5 (= R1.5): header for any struct contents."
-        " R9.6: shared-state rule for request parsing/encoding."),
+        " R9.6: shared-state rule for request parsing/encoding."
+        " R9.8 the verifying request entry point accepts iff trailer = CRC of the whole input before it."),
   note=ENGINE_NOTE,
   ref="DESIGN.md §3 C09"),
  "C10": dict(
@@ -141,7 +148,8 @@ claimed = {
   text=("Decides write-effect freedom of every function reachable from the accessors/extraction roots: no store, copy or append "
         "through payload-derived memory, no escape to non-allow-listed code (R13.1), no store to globals or through pointer "
         "parameters/receivers (R13.2). Hence repeatability and order independence for all call sequences."
-        " R13.2 includes the shared-state scan (package-level buffers, pools, caches)."),
+        " R13.2 includes the shared-state scan (package-level buffers, pools, caches)."
+        " R13.3 each FieldValue built afresh (order independence of results)."),
   note=ENGINE_NOTE + " Aliasing is tracked by derived-pointer propagation only (no pointer analysis is available at x/tools v0.29.0).",
   ref="DESIGN.md §3 C13"),
  "C14": dict(
@@ -152,7 +160,8 @@ claimed = {
         "thread safety are not decided."
         " Also R14.5 replies never alias a reused buffer, R14.6 no exit leaves the mutex held."
         " R14.7: ClientError values are never modified after construction."
-        " R14.8: no package-level state written from any exported client method."),
+        " R14.8: no package-level state written from any exported client method."
+        " R14.9 ExpectedResponseLength never too short (stream not shifted for the next caller); pinned deviations are known findings."),
   note=ENGINE_NOTE,
   ref="DESIGN.md §3 C14"),
  "C15": dict(
@@ -164,7 +173,8 @@ claimed = {
         " Also R15.5 one freshly allocated assembler per accepted connection, R15.6 classifier verdict depends on the header bytes only, accumulator returned on every loop exit."
         " Also: no read bytes dropped (R15.4), parsed requests do not alias the input (R15.7)."
         " R15.3 also forbids a return before the step and value receivers."
-        " R15.2 also: the connection is given up only on the classifier's verdict."),
+        " R15.2 also: the connection is given up only on the classifier's verdict."
+        " R15.8 = R16.1."),
   note=ENGINE_NOTE + " bytes.Buffer contract is modelled, not analysed.",
   ref="DESIGN.md §3 C15"),
  "C16": dict(
@@ -174,7 +184,8 @@ claimed = {
         "exception ADU layout (R16.3), origin and addressing of every reply the assembler emits (R16.4), recover-protected "
         "goroutines (R16.5), complete-frame consumption (R16.0). Handler-built responses are outside."
         " R16.6: no write to package-level state on the per-connection path."
-        " R16.7 (= R15.3)."),
+        " R16.7 (= R15.3)."
+        " R16.9 a failed reply write ends the connection."),
   note=ENGINE_NOTE,
   ref="DESIGN.md §3 C16"),
  "C17": dict(
@@ -187,7 +198,8 @@ claimed = {
         " Also R17.7 nil listener, R17.8 Shutdown scan flag is monotone and never up for an in-flight connection, R17.9 no exit leaves Server.mu held, R17.10 all replies of a read are handed back and written."
         " R17.11 (= R16.6)."
         " R17.12: reply write deadline from a fresh clock reading."
-        " R17.13: every way into the accept loop has stored the accepted-on listener in the Server before Accept."),
+        " R17.13: every way into the accept loop has stored the accepted-on listener in the Server before Accept."
+        " R17.6 also: the in-flight flag is cleared on every path back to the read."),
   note=ENGINE_NOTE,
   ref="DESIGN.md §3 C17"),
  "C18": dict(
